@@ -1622,7 +1622,7 @@ def do_define_meson(regex: T.Pattern[str], line: str, confdata: 'ConfigurationDa
         raise MesonException('#mesondefine argument "%s" is of unknown type.' % varname)
 
 def do_define_cmake(line: str, confdata: 'ConfigurationData', at_only: bool,
-                    subproject: T.Optional[SubProject] = None) -> str:
+                    subproject: T.Optional[SubProject] = None) -> T.Tuple[str, T.Set[str]]:
     cmake_bool_define = 'cmakedefine01' in line
 
     def get_cmake_define(line: str, confdata: 'ConfigurationData') -> str:
@@ -1654,17 +1654,16 @@ def do_define_cmake(line: str, confdata: 'ConfigurationData', at_only: bool,
         v, _ = confdata.get(varname)
     except KeyError:
         if cmake_bool_define:
-            return '#define %s 0\n' % varname
+            return '#define %s 0\n' % varname, set()
         else:
-            return '/* #undef %s */\n' % varname
+            return '/* #undef %s */\n' % varname, set()
 
     if not cmake_bool_define and not v:
-        return '/* #undef %s */\n' % varname
+        return '/* #undef %s */\n' % varname, set()
 
     result = get_cmake_define(line, confdata)
     result = f'#define {varname} {result}'.strip() + '\n'
-    result, _ = do_replacement_cmake(result, at_only, confdata)
-    return result
+    return do_replacement_cmake(result, at_only, confdata)
 
 def get_variable_regex(variable_format: Literal['meson', 'cmake', 'cmake@'] = 'meson') -> T.Pattern[str]:
     # Only allow (a-z, A-Z, 0-9, _, -) as valid characters for a define
@@ -1754,7 +1753,9 @@ def do_conf_str_cmake(src: str, data: T.List[str], confdata: 'ConfigurationData'
                 from ..interpreterbase.decorators import FeatureNew
                 FeatureNew.single_use('whitespace between `#` and `cmakedefine`', '1.9.0', subproject)
             confdata_useless = False
-            line = _keep_line_ending(line, do_define_cmake(line, confdata, at_only, subproject))
+            define_line, missing = do_define_cmake(line, confdata, at_only, subproject)
+            missing_variables.update(missing)
+            line = _keep_line_ending(line, define_line)
         else:
             if '#mesondefine' in line:
                 raise MesonException(f'Format error in {src}: saw "{line.strip()}" when format set to "{variable_format}"')
